@@ -80,7 +80,7 @@ def shrink_ops(r, mod_name, run_fn, driver_kind, mask_model, oracle_props, budge
 
 def correspondence(rep, *, prop, mod_name, driver_kind, ncases, extra=(), nontrivial=None,
                    oracle_props=None, run_fn="run_impl", index_base=0, sample_fmt=None,
-                   shrink=None, max_report=3, mask_model=None, post=None):
+                   shrink=None, max_report=3, mask_model=None, post=None, legal_only=False):
     """Runs `ncases` generated cases. Returns aggregated stats. Reports violations into `rep`."""
     oracle_props = oracle_props or {prop}
     t0 = time.time()
@@ -106,7 +106,15 @@ def correspondence(rep, *, prop, mod_name, driver_kind, ncases, extra=(), nontri
     code_exc = [r for r in results if r.get("code_exception")]
     nall = len(results)
     results = [r for r in results if not r.get("skip")]
-    if code_exc and len(code_exc) * 5 > nall:
+    if legal_only and code_exc:
+        # this generator draws only scenarios inside the property's stated domain: a scenario that cannot even
+        # be set up (the library raises on legal parameters) is a failing input of the property
+        for r in code_exc[:max_report]:
+            rep.violation({"kind": "spec-violation", "model": driver_kind, "case_index": r["idx"], "case": r["case"],
+                           "seed": rep.seed, "corpus_key": {"mod": mod_name, "extra": list(extra)},
+                           "exception": r["code_exception"]}, True,
+                          f"{prop}: a scenario inside the property's domain raises in the code under test: {r['code_exception']}")
+    elif code_exc and len(code_exc) * 5 > nall:
         # more than a fifth of the scenarios could not even be set up: the property is no longer shown to hold
         rep.violation({"kind": "correspondence", "model": driver_kind, "case_index": code_exc[0]["idx"], "case": code_exc[0]["case"],
                        "note": f"{len(code_exc)} of {nall} generated scenarios raised inside the code under test before the property could be exercised",
